@@ -210,6 +210,25 @@ pub fn search(seed: u64, n: u64) {
         let g = GraphPath::from_path(&p, PathLabel(0));
         check_graph(&mut stats, &mut rng, &g, "plain_path", 25, &detail);
     }
+    // regression inputs of repair ca41cec: a short, almost straight edge (a piece of a smooth curve, as the collision stage produces them) in
+    // a triangle-like path, crossed in its middle by the recorded line
+    let short_edges: [([Coord2; 4], (Coord2, Coord2), [Coord2; 2]); 2] = [
+        ([Coord2(30.401237216906033, 53.74612452605386), Coord2(30.500472658824105, 53.75021216917833), Coord2(30.600440300680898, 53.752623620754285), Coord2(30.701117361068853, 53.75344481963659)],
+         (Coord2(27.636417767290794, 64.03989485775425), Coord2(19.365841595660566, 93.32384569681716)), [Coord2(60.0, 20.0), Coord2(10.0, 20.0)]),
+        ([Coord2(20.23903371159554, 62.52588669633538), Coord2(20.23734451093884, 62.61166612053081), Coord2(20.23625797773748, 62.697712251579176), Coord2(20.236257977737484, 62.78401215605426)],
+         (Coord2(69.47173285306698, 61.09557514901203), Coord2(55.48957548276799, 61.53252056313267)), [Coord2(5.0, 90.0), Coord2(5.0, 30.0)]),
+    ];
+    for (e, line, far) in short_edges.iter() {
+        let third = |a: Coord2, b: Coord2| (a + (b - a) * (1.0 / 3.0), a + (b - a) * (2.0 / 3.0), b);
+        let path: P = (e[0], vec![(e[1], e[2], e[3]), third(e[3], far[0]), third(far[0], far[1]), third(far[1], e[0])]);
+        let detail_owner = format!("graph=from_path({:?})", path);
+        let detail = || detail_owner.clone();
+        stats.case(&format!("corpus short edge {:?} {}", line, detail()), true);
+        stats.count("corpus.short_nearly_straight_edge");
+        let g = GraphPath::from_path(&path, PathLabel(0));
+        let (edges, refs) = edges_of(&g);
+        check_line(&mut stats, &g, &edges, &refs, *line, "plain_path", "through_short_nearly_straight_edge", &detail);
+    }
     // shallow but transversal crossings: 600..1500-long wedges whose sides have slope 0.00025 .. 0.003, cut lengthwise by a line that stays
     // 0.1 clear of the three vertices; and large circles (radius 500 .. 1500) cut by a chord of depth 1e-4 .. 0.3 through the middle of an arc
     let mut rng_s = Rng(seed ^ 0x5A110);
